@@ -288,6 +288,10 @@ def run_log(ctx):
     outcomes = {}
     seen = {}
     nfw = 0
+    crash = [r for r in rows if r["k"] == "crash"]
+    rows = [r for r in rows if r["k"] in ("parse", "bytx", "run")]
+    # experiment, reported as coverage only (not one of the 20 properties: the node has to serve a log the core contract cannot emit)
+    ctx.cov["rawlog_experiment_topicless_core_log_ends_the_process"] = {r["how"]: {k: r[k] for k in ("exit", "panic", "where", "reason")} for r in crash}
     for r in rows:
         fam[r["k"]] = fam.get(r["k"], 0) + 1
         for m in r.get("mon") or []:
@@ -486,6 +490,7 @@ def run(ctx):
         "the state `w.pending non-empty and block poller off` is observed as: not one eth_getBlockByNumber request for 5 s at a 1 ms poll interval while messages are pending and no insertion is in flight (monitor liveness:pending-with-poller-off)",
         "the head subscription delivers what the poller publishes in order (go-ethereum event.Feed); the watcher's own 'processing new header' / 'processed new header' log lines are the trace of head processing (a rewording shows up as rendezvous timeouts)",
         "receipts whose JSON does not unmarshal (non-nil receipt together with an error) are not generated",
-        "logs with an empty topic list / a receipt without block number inside a re-observed receipt make the real code panic (Topics[0], BlockNumber.Uint64()); modelled as explicit Panic outcomes, not exercised",
+        "logs with an empty topic list / a receipt without block number inside a re-observed receipt make the real code panic (Topics[0], BlockNumber.Uint64()); modelled as explicit Panic outcomes, exercised on the real MessageEventsForTransaction / ParseLogMessagePublished under recover (extension X8) and, as an experiment in a child process, on the real Run (the process ends): robustness remark, needs a node that serves a log the core contract cannot emit",
+        "extension X8: raw logs reach the code through go-ethereum's JSON decoding of logs / receipts (exercised, not modelled; topics are 32-byte hashes, addresses 20 bytes by construction of the Go types); abigen's copy of the unpacked values into the event struct is by field name as read from abi.go; error classes are read off go-ethereum's error texts ('length insufficient' is the text of two different checks and compared as one class)",
         "uint64 wrap-around of height + consistency level + maxWaitConfirmations is excluded by the range hypotheses of the theorems (block numbers < 2^64 - 315); C10_range_hypothesis_needed shows the wrap",
     ]
